@@ -86,7 +86,16 @@ def run(tape, scenario):
             idx = cm.__enter__()
             stack.append(cm)
             groups[idx] = dict(marker=m, runs=0, inflight=[], noprog=0, noprog_tx=0,
-                               prog=None)
+                               noprog_user=0, prog=None)
+        # the per-group loop counters are 32 bit and only their low byte travels in the
+        # frame: start them anywhere (as after a long history), biased to the wrap-arounds
+        if groups and tape.chance("c22/preset-counter", 60):
+            cs = list(ec.ebpf.counters)
+            for g in list(groups) + [63, 0]:
+                base = tape.pick("c22/counter-base", [0xf8, 0x1f8, 0xffffff00, 0xfffffff8,
+                                                      0x7ffffff8, 0])
+                cs[g] = (base + tape.draw("c22/counter-off", 12)) & 0xffffffff
+            ec.ebpf.counters = tuple(cs)
         stage[0] = "play"
         prog = kernel.xdp.get(env.bus.ifindex)
         if prog is None:
@@ -218,8 +227,19 @@ def run(tape, scenario):
                 if action == TX:
                     st["inflight"].append(frame)
                 if ran:
-                    st["noprog"] = st["noprog_tx"] = 0
+                    st["noprog"] = st["noprog_tx"] = st["noprog_user"] = 0
                 else:
+                    if action == PASS:
+                        # second reading of "pass": frames handed to user space with no
+                        # run of the group's program in between (bound 2 in any order)
+                        st["noprog_user"] += 1
+                        world.counters["c22/noprog-user-run-max"] = max(
+                            world.counters["c22/noprog-user-run-max"], st["noprog_user"])
+                        if st["noprog_user"] > 2:
+                            viol("group-program-starved",
+                                 f"group {g}: {st['noprog_user']} consecutive frames were "
+                                 f"handed to user space without the group's program running "
+                                 f"in between (history {history[-14:]})", mode="handed-to-user")
                     st["noprog"] += 1
                     if action == TX:
                         st["noprog_tx"] += 1
